@@ -20,3 +20,39 @@ Print Assumptions C09_src_exit_map.
 Example C09_src_nonvacuous : src_exit_status_to_state_recognised = true -> src_exit_status_to_state 2 = 2 /\ src_exit_status_to_state 137 = 3 /\ src_exit_status_to_state (-1) = 3.
 Proof. intro H; xl_rec H. all: repeat split; vm_compute; reflexivity. Qed.
 
+
+(* ---------------------------------------------------------------------------------------------------------------------
+   Round 2 (notes/XLATE.md section 8): the argument assembly and the shell escaping as translated from /repo on this run
+   (coq/Facts/Facts_fn_macro2.v); byte strings are lists of N, `+` is concatenation, literals are their bytes;
+   EscapeShellArg is read with _WIN32 not defined. *)
+From Icv Require Import Macro.MxDefs Facts.Facts_fn_macro2 Src.SrcMacro2.
+From Coq Require Import NArith.
+
+Theorem C09_src_add_argument_helper : src_macroprocessor_add_argument_helper_recognised = true ->
+  forall key value add_key add_value sep_set sep,
+    src_macroprocessor_add_argument_helper key value add_key add_value sep_set sep
+    = mx_add_arg key value add_key add_value (xm_sep sep_set sep).
+Proof. exact src_macroprocessor_add_argument_helper_eq. Qed.
+Print Assumptions C09_src_add_argument_helper.
+
+(* an array-valued argument: key (per skip_key / repeat_key) and value for every element = mx_emit_arr *)
+Theorem C09_src_emit_array : src_resolve_arguments_emit_array_recognised = true ->
+  src_macroprocessor_add_argument_helper_recognised = true ->
+  forall c sep_set sep l, mx_ca_sep c = xm_sep sep_set sep ->
+    src_resolve_arguments_emit_array (mx_ca_key c) (mx_ca_skip_key c) (mx_ca_repeat_key c) (mx_ca_skip_value c) sep_set sep (map mx_to_string l)
+    = mx_emit_arr c true l.
+Proof. exact src_resolve_arguments_emit_array_eq. Qed.
+Print Assumptions C09_src_emit_array.
+
+(* the shell quoting every macro value goes through *)
+Theorem C09_src_escape_shell_arg : src_utility_escape_shell_arg_recognised = true ->
+  forall s, src_utility_escape_shell_arg s = mx_escape_shell_arg s.
+Proof. exact src_utility_escape_shell_arg_eq. Qed.
+Print Assumptions C09_src_escape_shell_arg.
+
+Example C09_src_round2_nonvacuous : src_utility_escape_shell_arg_recognised = true -> src_macroprocessor_add_argument_helper_recognised = true ->
+  (* a'b  ->  'a'\''b' ;  -k=v with a separator *)
+  src_utility_escape_shell_arg [97; 39; 98]%N = [39; 97; 39; 92; 39; 39; 98; 39]%N /\
+  src_macroprocessor_add_argument_helper [45; 107]%N [118]%N true true true [61]%N = [[45; 107; 61; 118]%N] /\
+  src_macroprocessor_add_argument_helper [45; 107]%N [118]%N true true false [61]%N = [[45; 107]%N; [118]%N].
+Proof. intros H1 H2; xl_rec H1; xl_rec H2. all: repeat split; vm_compute; reflexivity. Qed.
